@@ -562,3 +562,107 @@ func init() {
 		return fmt.Errorf("rat replay: re-run the group")
 	}
 }
+
+// ---------------------------------------------------------------- C18 the three versions agree
+
+func genC18(e *emitter, r *rng, tier string) {
+	// roots and rationals, all three versions on identical inputs (deep runs in the thorough tier)
+	genRoots(e, r, tier, []int{2, 3})
+	if tier == "thorough" {
+		for _, deg := range []int{2, 3} {
+			rd := radicand{"deep", big.NewInt(int64(2 + r.intn(90))), big.NewInt(int64(1 + r.intn(9)))}
+			for v := 1; v <= 3; v++ {
+				emitRootLine(e, v, deg, "rat64", rd, 50000, 1)
+			}
+		}
+	}
+	// Positions normal forms
+	n := 600
+	if tier == "thorough" {
+		n = 6000
+	}
+	for i := 0; i < n; i++ {
+		s := randPosScript(r, 9)
+		for v := 1; v <= 3; v++ {
+			emitPosLine(e, v, s)
+		}
+	}
+	// views, formats, searches, Sprint on Numbers every version can build
+	m := 250
+	if tier == "thorough" {
+		m = 3000
+	}
+	for i := 0; i < m; i++ {
+		var ns numSpec
+		switch r.intn(5) {
+		case 0:
+			ns = numSpec{desc: fmt.Sprintf("S:%d:%d", 1+r.intn(200), 1+r.intn(50)), length: -2, allV: true}
+		case 1:
+			ns = numSpec{desc: fmt.Sprintf("C:%d:%d", 1+r.intn(200), 1+r.intn(50)), length: -2, allV: true}
+		case 2:
+			ns = ratWithDigits(lowEntropyDigits(r, r.pick([]int{1, 5, 40, 100, 101, 250}), 1+r.intn(3)))
+		case 3:
+			ns = numSpec{desc: fmt.Sprintf("R:%d:%d", 1+r.intn(5000), 1+r.intn(999)), length: -2, allV: true}
+		default:
+			ns = genNumber(r.pick([]int{1, 99, 100, 101, 250, -1}), r.rangeInt(-4, 8), false)
+		}
+		b := newScriptBuilder(r, ns)
+		h := 0
+		for j := 0; j < r.intn(3); j++ {
+			b.view()
+			h = len(b.handles) - 1
+		}
+		if b.cheapStart(h) {
+			b.add("fwd:%d:%d", h, r.pick([]int{5, 100, 101, 250}))
+		}
+		hfin := len(b.handles)
+		b.add("we:%d:%d", h, r.pick([]int{0, 1, 50, 100, 101, 180}))
+		b.handles = append(b.handles, hinfo{b.handles[h].lo, 180})
+		b.add("back:%d:%d", hfin, 300)
+		for _, d := range fmtDirectives(r, 1, 10)[:4] {
+			b.add("fmt:0:%s", d)
+		}
+		b.add("str:0")
+		var p []int
+		if ns.digit != nil && ns.length != 0 {
+			l := ns.length
+			if l < 0 {
+				l = 100
+			}
+			st := r.intn(l)
+			for k := 0; k < 1+r.intn(min(3, l-st)); k++ {
+				p = append(p, ns.digit(st+k))
+			}
+		} else {
+			p = []int{r.intn(10)}
+		}
+		ps := patString(p)
+		b.add("fa:%d:%s", hfin, ps)
+		b.add("fl:%d:%s", hfin, ps)
+		b.add("ffn:%d:%s:%d", hfin, ps, r.pick([]int{0, 1, 3}))
+		b.add("fln:%d:%s:%d", hfin, ps, r.pick([]int{0, 1, 3}))
+		b.add("findr:%d:%s:3", hfin, ps)
+		// options common to all versions
+		var parts []string
+		if r.coin(70) {
+			parts = append(parts, fmt.Sprintf("R%d", r.pick([]int{0, 7, 10, 50})))
+		}
+		if r.coin(70) {
+			parts = append(parts, fmt.Sprintf("C%d", r.pick([]int{0, 3, 5, 10})))
+		}
+		if r.coin(50) {
+			parts = append(parts, fmt.Sprintf("S%d", r.intn(2)))
+		}
+		if r.coin(40) {
+			parts = append(parts, fmt.Sprintf("M%d", r.pick([]int{46, 95, 0x2022})))
+		}
+		o := "-"
+		if len(parts) > 0 {
+			o = strings.Join(parts, ".")
+		}
+		b.add("pr:%d:%s:%s", hfin, randPosForPrint(r, 0), o)
+		b.emit(e, "C18.script")
+	}
+}
+
+func init() { groups["C18"] = genC18 }
